@@ -11,6 +11,7 @@
   Driver/Dummy.lean) in about a third of its histories.
 -/
 import NxsModel.Lemmas.DummyHeap
+import NxsModel.Lemmas.R7DummyHeap
 import NxsModel.Spec.Wire
 namespace Nxs.C16
 open Nxs Nxs.Dummy
@@ -272,6 +273,114 @@ example :
     ((w.newDefault 3 16 100 0).runOn w.insts.length ops).2 = ((World.init.newDefault 3 16 100 0).runOn 0 ops).2 ∧
     ((w.newDefault 3 16 100 0).runOn w.insts.length ops).2 =
       [.none, .none, .none, .bytes (Spec.wire 3 [0, 10, 1, 0, 0, 0x63, 0x68, 0x61, 0x6e, 0x31])] := by
+  decide +kernel
+
+
+/-! ## Round 7 — states (not only observations) are independent; N instances; custom devices created late -/
+
+/-- **independence of STATE over interleaved histories** (any number of instances): after ANY interleaving `h`, instance
+    `j` (stream flag, queues, thread state) and every one of its channel objects (enable, divider, generator state, call
+    counter) are exactly what its own ops `projOps j h`, run alone from the same world, leave — "configuring, starting or
+    streaming one leaves the other's channel state, stream state and sample sequences untouched", for the state itself
+    rather than for what a client happens to read of it (`independent_interleaved`) -/
+theorem independent_interleaved_state (hc : Gen.Dummy.defaultCopied = true) {w : World} (hb : Built w) (j : Nat)
+    (h : List (Nat × Op)) (ij : Inst) (hj : w.insts[j]? = some ij) :
+    (w.run h).1.insts[j]? = (w.runOn j (projOps j h)).1.insts[j]? ∧
+    gather (w.run h).1.heap ij.addrs = gather (w.runOn j (projOps j h)).1.heap ij.addrs := by
+  have hs := hb.sep hc
+  obtain ⟨a1, a2⟩ := World.run_local_state w hs j h ij hj
+  obtain ⟨b1, b2⟩ := World.run_local_state w hs j ((projOps j h).map fun op => (j, op)) ij hj
+  rw [projOps_map_self] at b1 b2
+  exact ⟨a1.trans b1.symm, a2.trans b2.symm⟩
+
+/-- **an instance nobody addresses is untouched**: if no op of the interleaving addresses `j`, instance `j` and all its
+    channel objects are exactly as before — whatever the other N − 1 instances went through -/
+theorem untouched_instance_unchanged (hc : Gen.Dummy.defaultCopied = true) {w : World} (hb : Built w) (j : Nat)
+    (h : List (Nat × Op)) (hnone : ∀ p ∈ h, p.1 ≠ j) (ij : Inst) (hj : w.insts[j]? = some ij) :
+    (w.run h).1.insts[j]? = some ij ∧ gather (w.run h).1.heap ij.addrs = gather w.heap ij.addrs := by
+  have hp : projOps j h = [] := by
+    unfold projOps
+    rw [List.filterMap_eq_nil_iff]
+    intro p hp
+    simp [hnone p hp]
+  have := World.run_local_state w (hb.sep hc) j h ij hj
+  rw [hp] at this
+  exact this
+
+/-- **the remaining sample sequence of every channel is independent**: after any interleaving, the next `n` outputs of
+    every channel object of `j` are those it has after `j`'s own ops alone (sample sequences of B untouched by A) -/
+theorem independent_sequences (hc : Gen.Dummy.defaultCopied = true) {w : World} (hb : Built w) (j : Nat)
+    (h : List (Nat × Op)) (ij : Inst) (hj : w.insts[j]? = some ij) (n : Nat) :
+    (gather (w.run h).1.heap ij.addrs).map (·.outputs n) =
+      (gather (w.runOn j (projOps j h)).1.heap ij.addrs).map (·.outputs n) := by
+  rw [(independent_interleaved_state hc hb j h ij hj).2]
+
+/-- **a custom device created late is fresh** (the case section 5 left to `separation` + K/O): whatever instances exist
+    and whatever they were driven through, `DummyDev(channels=<separately built non-empty list>)` created now is the new
+    last instance, in the constructor's initial state, and its channel objects are exactly the list it was given -/
+theorem late_custom_is_fresh (w : World) (c : Chan) (cs : List Chan) (flags rxp snum wpad : Nat) :
+    let w' := w.newCustom (c :: cs) flags rxp snum wpad
+    w'.insts[w.insts.length]? = some (newInst (freshAddrs w.heap (c :: cs).length) flags rxp snum wpad) ∧
+    gather w'.heap (freshAddrs w.heap (c :: cs).length) = c :: cs := by
+  intro w'
+  have hw : w' = ⟨w.heap ++ (c :: cs), w.insts ++ [newInst (freshAddrs w.heap (c :: cs).length) flags rxp snum wpad]⟩ := rfl
+  rw [hw]
+  exact ⟨by simp, gather_fresh w.heap (c :: cs)⟩
+
+/-- what a client observes on a custom device created late: the history on the list it was built from -/
+theorem late_custom_observes (hc : Gen.Dummy.defaultCopied = true) {w : World} (hb : Built w) (c : Chan) (cs : List Chan)
+    (flags rxp snum wpad : Nat) (ops : List Op) :
+    ((w.newCustom (c :: cs) flags rxp snum wpad).runOn w.insts.length ops).2 =
+      (run (c :: cs) (newInst (freshAddrs w.heap (c :: cs).length) flags rxp snum wpad) ops).2.2 := by
+  obtain ⟨h1, h2⟩ := late_custom_is_fresh w c cs flags rxp snum wpad
+  have hs := (Built.newCustom (c :: cs) flags rxp snum wpad hb).sep hc
+  rw [World.runOn_local _ _ ops _ h1 (hs.ok _ _ h1)]
+  show (run (gather _ (freshAddrs w.heap (c :: cs).length)) _ ops).2.2 = _
+  rw [h2]
+
+/-- **a custom device created late behaves like the same device created first**: every history on it lets a client observe
+    exactly what it would on that device created right after import, before any other instance existed -/
+theorem late_custom_observes_like_first (hc : Gen.Dummy.defaultCopied = true) {w : World} (hb : Built w) (c : Chan)
+    (cs : List Chan) (flags rxp snum wpad : Nat) (ops : List Op) :
+    ((w.newCustom (c :: cs) flags rxp snum wpad).runOn w.insts.length ops).2 =
+      ((World.init.newCustom (c :: cs) flags rxp snum wpad).runOn 0 ops).2 := by
+  have h0 : ((World.init.newCustom (c :: cs) flags rxp snum wpad).runOn 0 ops).2 =
+      (run (c :: cs) (newInst (freshAddrs World.init.heap (c :: cs).length) flags rxp snum wpad) ops).2.2 :=
+    late_custom_observes hc Built.init c cs flags rxp snum wpad ops
+  rw [late_custom_observes hc hb c cs flags rxp snum wpad ops, h0]
+  exact run_addrs_congr (c :: cs) _ _ flags rxp snum wpad ops
+    ((freshAddrs_length _ _).trans (freshAddrs_length _ _).symm)
+
+/-- **restart is idempotent and history-free on the generator state**: the generator state (function counters,
+    direction, call counter) after `stop; start` is a fixed point of `reset` — a second, third, … restart, with any
+    number of samples drawn in between, lands in a `GenFresh` state again (instance of `restart_resets` with the
+    history `ops ++ [stop, start] ++ ops'`), stated for any number `m` of restart cycles -/
+theorem restart_cycles (cs : List Chan) (i : Inst) (cycles : List (List Op)) :
+    ∀ c ∈ (run cs i ((cycles.map fun ops => ops ++ [.stop, .start]).flatten ++ [.stop, .start])).1, c.GenFresh :=
+  restart_resets cs i _
+
+/-- non-vacuity (round 7): three devices (default, custom, default); the custom one is created AFTER device 0 was driven;
+    an interleaving in which device 1 is never addressed leaves it unchanged, and device 0's state is that of its own ops -/
+example :
+    let w := (((World.init.newDefault 3 16 2 0).runOn 0 [.start, .write (Spec.wire 6 [2, 0, 1]), .recvStep]).1.newCustom
+      [⟨true, 7, 1, 0, 0, [], some 11, 0, 1, 0⟩] 3 0 2 0).newDefault 1 0 1 0
+    let h : List (Nat × Op) := [(0, .streamStep), (2, .start), (0, .read), (2, .write (Spec.wire 2 [])), (2, .recvStep), (0, .stop)]
+    (∀ p ∈ h, p.1 ≠ 1) ∧ w.insts.length = 3 ∧
+    (w.run h).1.insts[1]? = w.insts[1]? ∧
+    (w.run h).1.insts[0]? = (w.runOn 0 (projOps 0 h)).1.insts[0]? := by
+  decide +kernel
+
+example : Built ((((World.init.newDefault 3 16 2 0).runOn 0 [.start, .write (Spec.wire 6 [2, 0, 1]), .recvStep]).1.newCustom
+      [⟨true, 7, 1, 0, 0, [], some 11, 0, 1, 0⟩] 3 0 2 0).newDefault 1 0 1 0) :=
+  (((Built.init.newDefault ..).runOn ..).newCustom ..).newDefault ..
+
+/-- … and the late custom device observes like the same device created first -/
+example :
+    let w := ((World.init.newDefault 3 16 2 0).runOn 0 [.start, .write (Spec.wire 6 [2, 0, 1]), .recvStep]).1
+    let cs : List Chan := [⟨true, 7, 1, 0, 0, [], some 11, 0, 1, 0⟩]
+    let ops : List Op := [.start, .write (Spec.wire 3 [0]), .recvStep, .read]
+    ((w.newCustom cs 3 0 2 0).runOn w.insts.length ops).2 = ((World.init.newCustom cs 3 0 2 0).runOn 0 ops).2 ∧
+    ((w.newCustom cs 3 0 2 0).runOn w.insts.length ops).2.length = 4 := by
   decide +kernel
 
 end Nxs.C16
